@@ -142,14 +142,18 @@ Definition judge_shape (c : shape_case) : Z :=
       end
   end.
 
-(* ---------------- part 4: sweep over NumPy's public callables.
-   (class, public name, number of sparse arguments = 1 and no keywords?, observed kind) *)
-Definition sweep_case := (string * string * bool * Z)%type.
+(* ---------------- part 4: sweep over NumPy's public callables, sub-namespaces (linalg, fft, emath, ma, char) included.
+   (class, public (dotted) name, one argument and no keywords?, observed kind,
+    does the result equal NumPy's on the densified operands?  — only computed for the sub-namespace cases) *)
+Definition sweep_case := (string * string * bool * Z * bool)%type.
 
-(* 0 ok | 2 silently densified | 1 the model says "not implemented" but the call did not raise TypeError
-   | 3 NumPy found no implementation although the model resolves the name *)
+(* 0 ok | 2 silently densified
+   | 1 the extracted dispatch rule says "not implemented" (name absent from the sparse namespace reached through the SAME
+       sub-module path, and from the type) but the call did not raise TypeError: some other function answered
+   | 3 NumPy found no implementation although the model resolves the name
+   | 4 the model resolves the name, the call returned, and the value differs from NumPy's on the dense operands *)
 Definition judge_sweep (c : sweep_case) : Z :=
-  let '(cls, n, unary, k) := c in
+  let '(cls, n, unary, k, np_ok) := c in
   if k =? K_DENSIFIED then 2
   else
     match assoc n numpy_names with
@@ -157,7 +161,7 @@ Definition judge_sweep (c : sweep_case) : Z :=
         let l := R cls (NumpyFunction n unary) in
         match l with
         | LfTypeError => if is_typeerror k then 0 else 1
-        | _ => if k =? K_NEP18_TYPEERROR then 3 else 0
+        | _ => if k =? K_NEP18_TYPEERROR then 3 else if negb np_ok then 4 else 0
         end
     | Some (NpUfunc _ _) =>
         let l := R cls (Ufunc n "__call__") in
